@@ -968,5 +968,7 @@ def run(ctx):
     ctx.do(r10_9)
     from . import c01
     ctx.do(c01.r1_5)
+    from . import c20 as _c20
+    ctx.do(_c20.r20_1)  # POP3's view of the mailbox is a copy, not the lists another session's expunge edits
     for k, v in DISJOINT_EDGES.items():
         ctx.trust(f"frozen instance-disjoint lock edge {k[0]}->{k[1]} in {k[2]}: {v}")
